@@ -4,6 +4,17 @@
 //!
 //! The set of translated items is the table `TARGETS` in `targets.rs`.  Everything outside the supported subset is a
 //! hard error (exit code 1) naming file, line, function and construct.
+//!
+//!     cd /verif/translator && cargo build --offline
+//!     target/debug/rs2lean /repo /verif/lean/Inkayaku/Gen/Rs
+//!     cd /verif/lean && lake build Inkayaku.Props.Translated      (the equivalence proofs)
+//!
+//! * `targets.rs`  what is translated, which structs are flattened into parameters, which types are opaque
+//! * `prelude.rs`  fixed text of `Prelude.lean` (machine-integer semantics, mapping-table functions) + semantics doc
+//! * `expr.rs`, `calls.rs`, `stmt.rs`  expressions, calls / method mapping tables, statements and loops
+//! * `../mutation_check.sh`  edits scratch copies of the Rust files and checks that the proofs then fail
+
+#![allow(dead_code)]
 
 mod calls;
 mod expr;
@@ -171,7 +182,28 @@ fn find_struct(world: &World, rel: &str, name: &str, allow_generics: bool) -> Re
     Ok(hits.pop().unwrap())
 }
 
-enum Found { Fn(syn::Signature, syn::Block), Const(syn::Type, syn::Expr) }
+enum Found { Fn(Vec<syn::Attribute>, syn::Signature, syn::Block), Const(Vec<syn::Attribute>, syn::Type, syn::Expr) }
+
+/// attributes that do not change what the code computes
+const HARMLESS_ATTRS: &[&str] = &["doc", "inline", "allow", "must_use", "warn", "deny", "expect"];
+
+fn check_attrs(path: &str, what: &str, attrs: &[syn::Attribute]) -> Res<()> {
+    for a in attrs {
+        let ok = a.path().get_ident().map(|i| HARMLESS_ATTRS.contains(&i.to_string().as_str())).unwrap_or(false);
+        if !ok { return Err(format!("{}:{}: {}: attribute `{}` is unsupported (conditional compilation etc. would change the meaning)", path, a.span().start().line, what, a.to_token_stream())); }
+    }
+    Ok(())
+}
+
+/// any attribute inside a function body (e.g. `#[cfg(..)]` on a statement) is an error
+fn check_body_attrs(path: &str, what: &str, block: &syn::Block) -> Res<()> {
+    use syn::visit::Visit;
+    struct V { bad: Vec<syn::Attribute> }
+    impl<'ast> Visit<'ast> for V { fn visit_attribute(&mut self, a: &'ast syn::Attribute) { self.bad.push(a.clone()); } }
+    let mut v = V { bad: vec![] };
+    v.visit_block(block);
+    check_attrs(path, what, &v.bad)
+}
 
 fn type_last_ident(t: &syn::Type) -> Option<String> {
     match t { syn::Type::Path(p) => p.path.segments.last().map(|s| s.ident.to_string()), _ => None }
@@ -182,13 +214,13 @@ fn find_items(world: &World, t: &Target) -> Vec<Found> {
     let mut hits = vec![];
     for it in &world.file(t.file).items {
         match (it, &t.container) {
-            (syn::Item::Fn(f), Container::Free) if f.sig.ident == t.name => hits.push(Found::Fn(f.sig.clone(), (*f.block).clone())),
-            (syn::Item::Const(c), Container::Free) if c.ident == t.name => hits.push(Found::Const((*c.ty).clone(), (*c.expr).clone())),
+            (syn::Item::Fn(f), Container::Free) if f.sig.ident == t.name => hits.push(Found::Fn(f.attrs.clone(), f.sig.clone(), (*f.block).clone())),
+            (syn::Item::Const(c), Container::Free) if c.ident == t.name => hits.push(Found::Const(c.attrs.clone(), (*c.ty).clone(), (*c.expr).clone())),
             (syn::Item::Trait(tr), Container::Trait(n)) if tr.ident == n => {
                 for ti in &tr.items {
                     match ti {
-                        syn::TraitItem::Fn(f) if f.sig.ident == t.name => { if let Some(b) = &f.default { hits.push(Found::Fn(f.sig.clone(), b.clone())); } }
-                        syn::TraitItem::Const(c) if c.ident == t.name => { if let Some((_, e)) = &c.default { hits.push(Found::Const(c.ty.clone(), e.clone())); } }
+                        syn::TraitItem::Fn(f) if f.sig.ident == t.name => { if let Some(b) = &f.default { hits.push(Found::Fn(f.attrs.clone(), f.sig.clone(), b.clone())); } }
+                        syn::TraitItem::Const(c) if c.ident == t.name => { if let Some((_, e)) = &c.default { hits.push(Found::Const(c.attrs.clone(), c.ty.clone(), e.clone())); } }
                         _ => {}
                     }
                 }
@@ -205,8 +237,8 @@ fn find_items(world: &World, t: &Target) -> Vec<Found> {
 fn impl_items(im: &syn::ItemImpl, name: &str, hits: &mut Vec<Found>) {
     for ii in &im.items {
         match ii {
-            syn::ImplItem::Fn(f) if f.sig.ident == name => hits.push(Found::Fn(f.sig.clone(), f.block.clone())),
-            syn::ImplItem::Const(c) if c.ident == name => hits.push(Found::Const(c.ty.clone(), c.expr.clone())),
+            syn::ImplItem::Fn(f) if f.sig.ident == name => hits.push(Found::Fn(f.attrs.clone(), f.sig.clone(), f.block.clone())),
+            syn::ImplItem::Const(c) if c.ident == name => hits.push(Found::Const(c.attrs.clone(), c.ty.clone(), c.expr.clone())),
             _ => {}
         }
     }
@@ -304,7 +336,7 @@ fn translate_target(world: &mut World, t: &'static Target) -> Res<(String, HashS
         What::Const => {
             let mut hits = find_items(world, t);
             if hits.len() != 1 { return Err(format!("{}: expected exactly one const `{}` in {}, found {}", path, t.name, t.container.describe(), hits.len())); }
-            let (ty, e) = match hits.pop().unwrap() { Found::Const(ty, e) => (ty, e), _ => return Err(format!("{}: `{}` is not a const", path, t.name)) };
+            let (ty, e) = match hits.pop().unwrap() { Found::Const(attrs, ty, e) => { check_attrs(&path, &format!("const {}", t.name), &attrs)?; (ty, e) } _ => return Err(format!("{}: `{}` is not a const", path, t.name)) };
             let lean = lean_name(t);
             let (text, info, deps) = {
                 let mut tr = new_tr(world, t, lean.clone());
@@ -326,7 +358,7 @@ fn translate_target(world: &mut World, t: &'static Target) -> Res<(String, HashS
         What::Fn { .. } | What::ClosureFn { .. } => {
             let mut hits = find_items(world, t);
             if hits.len() != 1 { return Err(format!("{}: expected exactly one fn `{}` in {}, found {}", path, t.name, t.container.describe(), hits.len())); }
-            let (sig, block) = match hits.pop().unwrap() { Found::Fn(s, b) => (s, b), _ => return Err(format!("{}: `{}` is not a fn", path, t.name)) };
+            let (sig, block) = match hits.pop().unwrap() { Found::Fn(attrs, s, b) => { check_attrs(&path, &format!("fn {}", t.name), &attrs)?; check_body_attrs(&path, &format!("fn {}", t.name), &b)?; (s, b) } _ => return Err(format!("{}: `{}` is not a fn", path, t.name)) };
             let (text, info, deps) = translate_fn(world, t, &sig, &block)?;
             let key_name = match &t.what { What::ClosureFn { suffix, .. } => format!("{}_{}", t.name, suffix), _ => t.name.to_string() };
             world.fns.insert((t.container.ns().map(|s| s.to_string()), key_name), info);
